@@ -61,7 +61,8 @@ LEVEL = "model_checking"
 ENGINE = "E3-SCHED"
 SHARDS = {"quick": 8, "thorough": 16}
 RULE = (
-    "(a) all schedules (preemption bound 2, env cost 1 quick / 0 thorough) of 2-3 tasks calling the real launch() for "
+    "(a) all schedules (preemption bound 1-2 quick, 1-3 thorough; an environment event costs one preemption unless the "
+    "configuration says env_cost=0) of 2-3 tasks calling the real launch() for "
     "the same command hash (optionally one for another hash, whose gc pass visits the first) with initial world in "
     "{no worker, live worker, crashed worker with stale socket} and environment events {worker exits cleanly, worker "
     "crashes}; (b) all schedules (bound 2; thorough bound 3 on small configs) of the real _serve_socket_threaded with "
@@ -506,6 +507,7 @@ def configs_b(ctx: Ctx) -> list[dict[str, Any]]:
             add(idle, [], clock)
             for cl in (["quick"], ["hold"]):
                 add(idle, cl, clock, bound=3 if len(clock) == 1 else 2)
+        add(idle, ["quick"], clocks[0], bound=1, env_cost=0)
         add(idle, ["quick", "quick"], clocks[0], bound=1)
         add(idle, ["hold", "quick"], clocks[0], bound=1)
         add(idle, ["hold", "quick"], clocks[0], bound=0, max_conn=1)
@@ -885,8 +887,8 @@ def oracle_a(ctx: Ctx, cfg: dict[str, Any], x: S.Exec, tier: str) -> Any:
 def configs_a(ctx: Ctx) -> list[dict[str, Any]]:
     out: list[dict[str, Any]] = []
 
-    def add(launchers: list[int], init: str = "none", env: list[str] | None = None, bound: int = 2, trace: bool = False) -> None:
-        out.append({"launchers": launchers, "init": init, "env": env or [], "bound": bound, "trace": trace})
+    def add(launchers: list[int], init: str = "none", env: list[str] | None = None, bound: int = 2, trace: bool = False, env_cost: int = 1) -> None:
+        out.append({"launchers": launchers, "init": init, "env": env or [], "bound": bound, "trace": trace, "env_cost": env_cost})
 
     if ctx.quick:
         add([1, 1])
@@ -907,13 +909,14 @@ def configs_a(ctx: Ctx) -> list[dict[str, Any]]:
         add([1, 1], init=init, bound=3)
         for env in (["exit"], ["crash"], ["exit", "crash"]):
             add([1, 1], init=init, env=env)
+        add([1, 1], init=init, env=["crash"], bound=1, env_cost=0)
         add([1, 2], init=init)
         add([2, 1], init=init)
-        add([1, 2], init=init, env=["crash"])
+        add([1, 2], init=init, env=["crash"], bound=1)
         add([1, 1, 1], init=init)
-        add([1, 1, 2], init=init, env=["crash"], bound=1)
+        add([1, 1, 2], init=init, bound=1)
         add([1, 1], init=init, bound=2, trace=True)
-        add([1, 2], init=init, env=["crash"], bound=1, trace=True)
+        add([1, 2], init=init, bound=1, trace=True)
         add([2, 1], init=init, bound=1, trace=True)
         add([1, 1], init=init, env=["exit"], bound=1, trace=True)
     return out
@@ -925,7 +928,7 @@ def configs_a(ctx: Ctx) -> list[dict[str, Any]]:
 def _explore(ctx: Ctx, part: str, cfg: dict[str, Any], setup: Any, orc: Any, trace: Any) -> None:
     st = S.explore(
         ctx, setup, lambda x: orc(ctx, cfg, x, ctx.tier), bound=cfg["bound"], label=f"{part}:" + json.dumps(cfg, sort_keys=True),
-        trace=trace if cfg["trace"] else None, env_cost=1 if ctx.quick else 0, max_execs=_DEV_CAP,
+        trace=trace if cfg["trace"] else None, env_cost=cfg.get("env_cost", 1), max_execs=_DEV_CAP,
     )
     ctx.extra[f"{part}_schedules"] += st["schedules"]
     ctx.extra[f"{part}_configs"] += 1
@@ -958,7 +961,7 @@ def replay(ctx: Ctx, case: dict[str, Any]) -> None:
     ctx.extra.update({"a_spawns": 0, "a_probes": 0, "b_backlog_at_exit": 0, "b_forced_closes": 0, "b_self_exits": 0, "b_quiescent_jumps": 0})
     cfg = case["cfg"]
     tier = case.get("tier", "quick")
-    ec = 1 if tier == "quick" else 0
+    ec = cfg.get("env_cost", 1)
     if case.get("part") == "a":
         with bound_launcher():
             x = S.run_one(make_setup_a(cfg), case["choices"], None, trace=TRACE_A if cfg["trace"] else None, env_cost=ec)
